@@ -272,7 +272,7 @@ pub fn judge_path(prog: &Prog, class: Class, cfg: &HistCfg, path: &[PEvent], cra
             if !entered.is_empty() {
               problems.push(("stale-after-bottom-up".into(), format!("after the bottom-up build, requiring all known tasks {:?} executed {:?}", known, entered)));
             }
-            if class.wf() {
+            if class.wf() && an.exact_writes() {
               let expect: Vec<u8> = m.outputs.iter().map(|o| o.unwrap_or(255)).collect();
               if *outs != expect {
                 problems.push(("probe-output".into(), format!("after the bottom-up build, known tasks {:?} return {:?}; from scratch they return {:?}", known, outs, expect)));
